@@ -347,3 +347,10 @@ Example ex_sem :
   | None => False
   end.
 Proof. vm_compute. repeat split; reflexivity. Qed.
+
+(* FIFO hand-over: with waiters queued, a Release wakes exactly the first one; the semaphore stays full *)
+Theorem C04_semaphore_release_wakes_head_protocol : forall n s w rest s' r, SReach n s -> s_wait s = w :: rest ->
+  sstep s SRelease = Some (s', r) ->
+  r = RDone [w] /\ s_wait s' = rest /\ s_granted s' = s_granted s ++ [w] /\ sfree s' = 0.
+Proof. exact sem_release_wakes_head. Qed.
+Print Assumptions C04_semaphore_release_wakes_head_protocol.
